@@ -59,7 +59,10 @@ Inductive stmt :=
 | SEnd
 | SError (e : expr)
 | SOnErrorGoto (n : Z)
-| SResume (r : rkind).
+| SResume (r : rkind)
+| SRead (vs : list var)                        (* READ v1, v2, ... *)
+| SData (items : list Z)                      (* DATA c1, c2, ... (integer constants) *)
+| SRestore (n : option Z).                    (* RESTORE [n] *)
 
 (* ------------------------------------------------------------------ state *)
 
@@ -82,19 +85,23 @@ Record state := {
   fors : list frec;            (* for_stack, top first *)
   whiles : list (nat * nat);   (* while_stack (whilepos, wendpos), top first *)
   gosubs : list nat;           (* gosub_stack: position of the calling statement, top first *)
+  dptr : nat * nat;            (* data_pos: (j, 0) = look for the next DATA statement from slot j on;
+                                  (j, k) = k items of the DATA statement in slot j have been read *)
   ds : dstate
 }.
 
 Definition set_pc (st : state) (p : nat) : state :=
-  {| pc := p; fors := fors st; whiles := whiles st; gosubs := gosubs st; ds := ds st |}.
+  {| pc := p; fors := fors st; whiles := whiles st; gosubs := gosubs st; dptr := dptr st; ds := ds st |}.
 Definition set_fors (st : state) (f : list frec) : state :=
-  {| pc := pc st; fors := f; whiles := whiles st; gosubs := gosubs st; ds := ds st |}.
+  {| pc := pc st; fors := f; whiles := whiles st; gosubs := gosubs st; dptr := dptr st; ds := ds st |}.
 Definition set_whiles (st : state) (w : list (nat * nat)) : state :=
-  {| pc := pc st; fors := fors st; whiles := w; gosubs := gosubs st; ds := ds st |}.
+  {| pc := pc st; fors := fors st; whiles := w; gosubs := gosubs st; dptr := dptr st; ds := ds st |}.
 Definition set_gosubs (st : state) (g : list nat) : state :=
-  {| pc := pc st; fors := fors st; whiles := whiles st; gosubs := g; ds := ds st |}.
+  {| pc := pc st; fors := fors st; whiles := whiles st; gosubs := g; dptr := dptr st; ds := ds st |}.
+Definition set_dptr (st : state) (p : nat * nat) : state :=
+  {| pc := pc st; fors := fors st; whiles := whiles st; gosubs := gosubs st; dptr := p; ds := ds st |}.
 Definition set_ds (st : state) (d : dstate) : state :=
-  {| pc := pc st; fors := fors st; whiles := whiles st; gosubs := gosubs st; ds := d |}.
+  {| pc := pc st; fors := fors st; whiles := whiles st; gosubs := gosubs st; dptr := dptr st; ds := d |}.
 
 Definition d_set_env (d : dstate) (e : list Z) : dstate :=
   {| env := e; err := err d; erl := erl d; onerr := onerr d; handling := handling d;
@@ -114,7 +121,7 @@ Definition set_var (st : state) (v : var) (z : Z) : state :=
 Definition init_ds : dstate :=
   {| env := []; err := 0; erl := 0; onerr := 0; handling := false; resume_at := None; susp := false |}.
 Definition init_at (p : nat) : state :=
-  {| pc := p; fors := []; whiles := []; gosubs := []; ds := init_ds |}.
+  {| pc := p; fors := []; whiles := []; gosubs := []; dptr := (0%nat, 0%nat); ds := init_ds |}.
 
 (* ------------------------------------------------------------------ expressions *)
 
@@ -154,6 +161,22 @@ Fixpoint eval (d : dstate) (e : expr) : eres :=
   | EErr => EV (err d)
   | EErl => EV (erl d)
   end.
+
+(* PRINT a \ b with b = 0 while math errors are soft (no ON ERROR GOTO n in force): the float error handler
+   prints "Division by zero" and the result is machine infinity with the sign of a; execution continues.
+   Some neg = that case, with the sign.  (Only PRINT of such a quotient is modelled; elsewhere the soft case
+   stays Unmodelled.) *)
+Definition soft_div (d : dstate) (e : expr) : option bool :=
+  match e with
+  | EIDiv a b =>
+      match eval d a, eval d b with
+      | EV x, EV y => if in16 x && in16 y && (y =? 0) && negb (susp d) then Some (x <? 0) else None
+      | _, _ => None
+      end
+  | _ => None
+  end.
+(* output codes: the soft message, and plus / minus machine infinity as PRINT shows it (1.701412E+38) *)
+Definition soft_out (neg : bool) : list Z := [77711; if neg then -88888 else 88888].
 
 (* ------------------------------------------------------------------ scanning the code stream *)
 
@@ -250,6 +273,41 @@ Definition next_colon (code : list stmt) (p : nat) : nat :=
   match skipn p code with
   | [] => p
   | s :: r => next_colon_from r (S p) s
+  end.
+
+(* READ: the next DATA statement at or after slot `from` that starts after a colon or a line header
+   (codestream.skip_to_token: statements in THEN / ELSE clauses are not seen), in the program stream *)
+Fixpoint find_data_from (l : list stmt) (base : nat) (joined : bool) (from : nat) : option (nat * list Z) :=
+  match l with
+  | [] => None
+  | SEndProg :: _ => None
+  | s :: r =>
+      match s with
+      | SData items =>
+          if Nat.leb from base && negb joined then Some (base, items)
+          else find_data_from r (S base) (then_joined s) from
+      | _ => find_data_from r (S base) (then_joined s) from
+      end
+  end.
+
+(* the item the data pointer is at, and the pointer after it; None = Out of DATA *)
+Definition read_item (code : list stmt) (dp : nat * nat) : option (Z * (nat * nat)) :=
+  let at_item := fun (j k : nat) (items : list Z) =>
+    match nth_error items k with
+    | Some z => Some (z, if Nat.ltb (S k) (length items) then (j, S k) else (S j, 0%nat))
+    | None => None
+    end in
+  match dp with
+  | (j, O) =>
+      match find_data_from code 0 false j with
+      | Some (j', items) => at_item j' 0%nat items
+      | None => None
+      end
+  | (j, S k) =>
+      match nth_error code j with
+      | Some (SData items) => at_item j (S k) items
+      | _ => None
+      end
   end.
 
 (* ------------------------------------------------------------------ outcomes *)
@@ -360,6 +418,26 @@ Fixpoint pop_to_wend (ws : list (nat * nat)) (j : nat) : option (list (nat * nat
   end.
 
 
+(* ------------------------------------------------------------------ READ *)
+
+Inductive rdres := RdOk (st : state) | RdErr (st : state) (c : Z) | RdUnmodelled.
+
+(* Interpreter.read_: for each variable the next DATA item is fetched (the stream goes to the DATA statement
+   and comes BACK to the READ statement) and then assigned; the data pointer advances only after a successful
+   assignment.  Errors - Out of DATA, Overflow of the assignment - are raised with the stream at the READ. *)
+Fixpoint read_vars (code : list stmt) (st : state) (vs : list var) : rdres :=
+  match vs with
+  | [] => RdOk st
+  | v :: rest =>
+      match read_item code (dptr st) with
+      | None => RdErr st flow_E_OUT_OF_DATA
+      | Some (z, dp') =>
+          if negb (exact24 z) then RdUnmodelled
+          else if in16 z then read_vars code (set_dptr (set_var st v z) dp') rest
+          else RdErr st flow_E_OVERFLOW
+      end
+  end.
+
 (* ------------------------------------------------------------------ one statement: Ok | Raise *)
 
 (* what one statement does by itself: it continues (new state, output), ends the program, or raises
@@ -411,7 +489,11 @@ Definition pstep (code : list stmt) (st : state) : pres :=
         | None => PHalt Finished
         end
     | SLine _ => PGo (set_pc st (S i)) []
-    | SPrint e => pwith_val st i (eval d e) (fun z => PGo (set_pc st (S i)) [z])
+    | SPrint e =>
+        match soft_div d e with
+        | Some neg => PGo (set_pc st (S i)) (soft_out neg)
+        | None => pwith_val st i (eval d e) (fun z => PGo (set_pc st (S i)) [z])
+        end
     | SLet v e =>
         pwith_val st i (eval d e) (fun z =>
           if in16 z then PGo (set_pc (set_var st v z) (S i)) [] else PRaise st flow_E_OVERFLOW i)
@@ -482,6 +564,15 @@ Definition pstep (code : list stmt) (st : state) : pres :=
             | RLine n => pjump code st1 i n (fun j => PGo (set_pc st1 j) [])
             end
         end
+    | SRead vs =>
+        match read_vars code st vs with
+        | RdOk st' => PGo (set_pc st' (S i)) []
+        | RdErr st' c => PRaise st' c i
+        | RdUnmodelled => PHalt Unmodelled
+        end
+    | SData _ => PGo (set_pc st (S i)) []
+    | SRestore None => PGo (set_pc (set_dptr st (0%nat, 0%nat)) (S i)) []
+    | SRestore (Some n) => pjump code st i n (fun j => PGo (set_pc (set_dptr st (j, 0%nat)) (S i)) [])
     | SFor v a b s =>
         pwith_int st i (eval d a) (fun va =>
         pwith_int st i (eval d b) (fun vb =>
@@ -640,15 +731,16 @@ Fixpoint run_st (code : list stmt) (fuel : nat) (st : state) : list Z * outcome 
 (* a command typed at the prompt: RUN, or a direct line *)
 Inductive command := CRun | CDirect (line : list stmt).
 
-(* RUN: variables, stacks, error registers and ON ERROR line are cleared (the suspension of soft math errors
-   is not); a direct line: everything stays, execution starts at its first statement *)
+(* RUN: variables, stacks, error registers, ON ERROR line and the suspension of soft math errors are cleared
+   (Interpreter.clear, as repaired by fixes/D23e): the state of a fresh session;
+   a direct line: everything stays, execution starts at its first statement *)
 Definition start_command (prog : list stmt) (st : state) (c : command) : list stmt * state :=
   match c with
   | CRun =>
       (prog ++ [SEndProg],
-       {| pc := 0; fors := []; whiles := []; gosubs := [];
+       {| pc := 0; fors := []; whiles := []; gosubs := []; dptr := (0%nat, 0%nat);
           ds := {| env := []; err := 0; erl := 0; onerr := 0; handling := false; resume_at := None;
-                   susp := susp (ds st) |} |})
+                   susp := false |} |})
   | CDirect line => (prog ++ SEndProg :: line, set_pc st (S (length prog)))
   end.
 
